@@ -62,8 +62,11 @@ namespace foonathan
                 static constexpr std::size_t min_block_size(std::size_t node_size,
                                                             std::size_t number_of_nodes)
                 {
+                    // each chunk is followed by a buffer to align the next chunk header
                     return chunk_count(number_of_nodes)
-                           * (chunk_memory_offset + chunk_max_nodes * node_size);
+                           * round_up_to_multiple_of_alignment(chunk_memory_offset
+                                                                   + chunk_max_nodes * node_size,
+                                                               alignof(chunk_base));
                 }
 
                 //=== constructor ===//
